@@ -188,70 +188,6 @@ Lemma evalN_correct : forall g, topo g = true -> flags_inj g = true ->
     match evalN g s n with (s', v, _) => v = freshN g (ver s) n /\ ver s' = ver s /\ inv g s' end.
 Proof. intros g T F s n Hn Hi. unfold evalN. apply (eval_correct g T F (S (nslots g))); auto. Qed.
 
-(* ------------------------------------------------------------------ updates *)
-Lemma bumps_cons_bump : forall l p, bumps (PBump l :: p) = l :: bumps p.
-Proof. reflexivity. Qed.
-
-Lemma exec_steps_shape : forall g p s s', exec_steps g s p = Ok s' ->
-  ver s' = bump_all (bumps p) (ver s) /\ cache s' = cache s /\
-  (forall a, memf a (dirty s) = true -> memf a (dirty s') = true) /\
-  (forall o m, In o (fires p) -> fire g o = Ok m -> forall a, memf a m = true -> memf a (dirty s') = true).
-Proof.
-  intros g. induction p as [|st p IH]; intros s s' H; simpl in H.
-  - inversion H; subst. simpl. repeat split; auto; try (intros o m []).
-  - destruct (exec_step g s st) as [s1| |] eqn:E1; try discriminate.
-    specialize (IH s1 s' H). destruct IH as (V & Cc & Mono & Fi).
-    destruct st as [l|o|o f]; simpl in E1.
-    + inversion E1; subst s1; clear E1. simpl in *. repeat split; auto.
-    + destruct (fire g o) as [m| |] eqn:Ef; try discriminate.
-      inversion E1; subst s1; clear E1. simpl in *. repeat split; auto.
-      * intros a Ha. apply Mono. rewrite memf_app, Ha. apply orb_true_r.
-      * intros o' m' [->|Hin] Hf a Ha.
-        -- rewrite Ef in Hf. inversion Hf; subst m'. apply Mono. rewrite memf_app, Ha. reflexivity.
-        -- eapply Fi; eauto.
-    + inversion E1; subst s1; clear E1. simpl in *. repeat split; auto.
-      intros a Ha. apply Mono. simpl. rewrite Ha. apply orb_true_r.
-Qed.
-
-Lemma exec_steps_ok : forall g p s, (forall o, In o (fires p) -> fire_ok g o = true) ->
-  exists s', exec_steps g s p = Ok s'.
-Proof.
-  intros g. induction p as [|st p IH]; intros s H; simpl.
-  - eexists; reflexivity.
-  - destruct st as [l|o|o f]; simpl.
-    + apply IH. intros o Ho. apply H. exact Ho.
-    + assert (Ho : fire_ok g o = true) by (apply H; left; reflexivity).
-      unfold fire_ok in Ho. destruct (fire g o); try discriminate.
-      apply IH. intros o' Ho'. apply H. right; exact Ho'.
-    + apply IH. intros o' Ho'. apply H. exact Ho'.
-Qed.
-
-Lemma covers_spec : forall g p m, covers g p m = true ->
-  forall n fl, n < nslots g -> s_flag (get_slot g n) = Some fl -> readsN g n p = true ->
-    memf (s_owner (get_slot g n), fl) m = true.
-Proof.
-  intros g p m C n fl Hn Hfl Hr. unfold covers in C. rewrite forallb_forall in C.
-  specialize (C n). rewrite in_seq in C. specialize (C ltac:(lia)). simpl in C.
-  rewrite Hfl, Hr in C. exact C.
-Qed.
-
-Lemma inv_after_update : forall g s s' ls, inv g s ->
-  ver s' = bump_all ls (ver s) -> cache s' = cache s ->
-  (forall a, memf a (dirty s) = true -> memf a (dirty s') = true) ->
-  (forall l, In l ls -> exists m, fire g l = Ok m /\ covers g l m = true /\
-                                  forall a, memf a m = true -> memf a (dirty s') = true) ->
-  inv g s'.
-Proof.
-  intros g s s' ls Hi Hv Hc Mono Hl n fl Hn Hfl Hclean.
-  rewrite Hv, Hc.
-  rewrite freshN_bump_all_unread.
-  - apply (Hi n fl Hn Hfl). destruct (memf _ (dirty s)) eqn:E; auto.
-    apply Mono in E. congruence.
-  - intros l Hin. destruct (Hl l Hin) as (m & Hf & Hcov & Hsub).
-    destruct (readsN g n l) eqn:Er; auto.
-    pose proof (covers_spec g l m Hcov n fl Hn Hfl Er) as Hm. apply Hsub in Hm. congruence.
-Qed.
-
 (* ------------------------------------------------------------------ what `wired` gives *)
 Lemma list_eqb_eq : forall a b, list_eqb a b = true -> a = b.
 Proof.
@@ -298,19 +234,76 @@ Qed.
 Lemma leaf_ok_spec : forall g l, leaf_ok g l = true -> exists m, fire g l = Ok m /\ covers g l m = true.
 Proof. intros g l H. unfold leaf_ok in H. destruct (fire g l); try discriminate. eauto. Qed.
 
-(* an update whose plan bumps exactly ls, notifies every bumped leaf and raises nowhere keeps the invariant *)
-Lemma update_sound : forall g, wired g = true -> forall s p, inv g s ->
-  (forall l, In l (bumps p) -> is_leaf g l = true /\ In l (fires p)) ->
-  (forall o, In o (fires p) -> fire_ok g o = true) ->
+Lemma covers_spec : forall g p m, covers g p m = true ->
+  forall n fl, n < nslots g -> s_flag (get_slot g n) = Some fl -> readsN g n p = true ->
+    memf (s_owner (get_slot g n), fl) m = true.
+Proof.
+  intros g p m C n fl Hn Hfl Hr. unfold covers in C. rewrite forallb_forall in C.
+  specialize (C n). rewrite in_seq in C. specialize (C ltac:(lia)). simpl in C.
+  rewrite Hfl, Hr in C. exact C.
+Qed.
+
+(* ------------------------------------------------------------------ updates *)
+(* inside an assignment: a clean cache holds the fresh value unless it reads a leaf that has been
+   changed and not yet notified (pend) *)
+Definition inv_pend (g : graph) (pend : list nat) (s : state) : Prop :=
+  forall n fl, n < nslots g -> s_flag (get_slot g n) = Some fl ->
+               memf (s_owner (get_slot g n), fl) (dirty s) = false ->
+               (forall l, In l pend -> readsN g n l = false) ->
+               cache s n = freshN g (ver s) n.
+
+Lemma inv_pend_nil : forall g s, inv_pend g [] s <-> inv g s.
+Proof.
+  intros g s. split; intros H n fl Hn Hf Hc.
+  - apply (H n fl Hn Hf Hc). intros l [].
+  - intros _. apply (H n fl Hn Hf Hc).
+Qed.
+
+Lemma safe_sound : forall g, wired g = true -> forall p pend s,
+  inv_pend g pend s -> (forall l, In l pend -> is_leaf g l = true) -> safe g pend p = true ->
   exists s', exec_steps g s p = Ok s' /\ inv g s' /\ ver s' = bump_all (bumps p) (ver s).
 Proof.
-  intros g W s p Hi Hb Hf. destruct (wired_parts g W) as (T & F & WL & WP).
-  destruct (exec_steps_ok g p s Hf) as [s' E]. exists s'. split; auto.
-  destruct (exec_steps_shape g p s s' E) as (V & Cc & Mono & Fi). split; auto.
-  apply (inv_after_update g s s' (bumps p) Hi V Cc Mono).
-  intros l Hl. destruct (Hb l Hl) as [Lf Lin].
-  destruct (leaf_ok_spec g l (WL l Lf)) as (m & Em & Cm). exists m. repeat split; auto.
-  intros a Ha. eapply Fi; eauto.
+  intros g W. destruct (wired_parts g W) as (T & F & WL & WP).
+  induction p as [|st p IH]; intros pend s Hi Hl Hs; simpl in Hs.
+  - destruct pend; try discriminate. exists s. simpl. repeat split; auto. now apply inv_pend_nil.
+  - destruct st as [l|o|o f|n].
+    + (* bump *)
+      apply andb_true_iff in Hs. destruct Hs as [Lf Hs].
+      destruct (IH (l :: pend) (mkState (upd (ver s) l (S (ver s l))) (dirty s) (cache s))) as (s' & E & I' & V); auto.
+      * intros n fl Hn Hf Hc Hr. simpl in *.
+        change (upd (ver s) l (S (ver s l))) with (bump (ver s) l).
+        unfold freshN. rewrite fresh_bump_unread by (apply Hr; left; reflexivity).
+        apply (Hi n fl Hn Hf Hc). intros x Hx. apply Hr. right. exact Hx.
+      * intros x [<-|Hx]; auto.
+      * exists s'. simpl. repeat split; auto.
+    + (* notification *)
+      apply andb_true_iff in Hs. destruct Hs as [Fo Hs].
+      unfold fire_ok in Fo. destruct (fire g o) as [m| |] eqn:Ef; try discriminate.
+      destruct (IH (filter (fun x => negb (x =? o)) pend) (mkState (ver s) (m ++ dirty s) (cache s))) as (s' & E & I' & V); auto.
+      * intros n fl Hn Hf Hc Hr. simpl in *.
+        rewrite memf_app in Hc. apply orb_false_iff in Hc. destruct Hc as [Hm Hd].
+        apply (Hi n fl Hn Hf Hd). intros l Hin.
+        destruct (Nat.eq_dec l o) as [->|Hne].
+        -- destruct (readsN g n o) eqn:Er; auto.
+           destruct (leaf_ok_spec g o (WL o (Hl o Hin))) as (m' & Em' & Cm').
+           rewrite Ef in Em'. inversion Em'; subst m'.
+           pose proof (covers_spec g o m Cm' n fl Hn Hf Er). congruence.
+        -- apply Hr. apply filter_In. split; auto. apply negb_true_iff. now apply Nat.eqb_neq.
+      * intros x Hx. apply filter_In in Hx. apply Hl. tauto.
+      * exists s'. simpl. rewrite Ef. repeat split; auto.
+    + (* a setter marks its own cache dirty *)
+      destruct (IH pend (mkState (ver s) ((o, f) :: dirty s) (cache s))) as (s' & E & I' & V); auto.
+      * intros n fl Hn Hf Hc Hr. simpl in *. apply orb_false_iff in Hc. destruct Hc as [_ Hd].
+        apply (Hi n fl Hn Hf Hd Hr).
+      * exists s'. simpl. repeat split; auto.
+    + (* a read inside the setter *)
+      destruct pend; try discriminate.
+      apply andb_true_iff in Hs. destruct Hs as [Hn Hs]. apply Nat.ltb_lt in Hn.
+      pose proof (evalN_correct g T F s n Hn (proj1 (inv_pend_nil g s) Hi)) as Ev.
+      simpl. destruct (evalN g s n) as [[s1 v] lg]. destruct Ev as (_ & Hver & Hi1).
+      assert (Hnil0 : forall l : nat, In l [] -> is_leaf g l = true) by (intros l []).
+      destruct (IH [] s1 (proj2 (inv_pend_nil g s1) Hi1) Hnil0 Hs) as (s' & E & I' & V).
+      exists s'. repeat split; auto. rewrite V, Hver. reflexivity.
 Qed.
 
 Lemma step_sound : forall g, wired g = true -> forall s o, inv g s -> op_ok g o = true ->
@@ -319,29 +312,27 @@ Lemma step_sound : forall g, wired g = true -> forall s o, inv g s -> op_ok g o 
                  option_map fst out = snd (spec_step g (ver s) o).
 Proof.
   intros g W s o Hi Hok. destruct (wired_parts g W) as (T & F & WL & WP).
+  pose proof (proj2 (inv_pend_nil g s) Hi) as Hi0.
+  assert (Hnil : forall l : nat, In l [] -> is_leaf g l = true) by (intros l []).
   destruct o as [o|o|o|n]; simpl in Hok.
   - (* assignment *)
     destruct (WP o Hok) as [_ PO]. unfold plan_ok in PO.
     destruct (assign_plan g o) as [p| |] eqn:Ep; try discriminate.
-    apply andb_true_iff in PO. destruct PO as [PO P3]. apply andb_true_iff in PO. destruct PO as [P1 P2].
-    apply list_eqb_eq in P1. rewrite forallb_forall in P2, P3.
-    destruct (update_sound g W s p Hi) as (s' & E & Hi' & V).
-    + intros l Hl. specialize (P2 l Hl). apply andb_true_iff in P2. destruct P2 as [A B].
-      split; auto. apply existsb_exists in B. destruct B as (x & Hx & Ex). apply Nat.eqb_eq in Ex. now subst x.
-    + exact P3.
-    + exists s', None. unfold step. simpl. rewrite Ep, E. repeat split; auto.
-      simpl. rewrite V, P1. reflexivity.
+    apply andb_true_iff in PO. destruct PO as [P1 P2]. apply list_eqb_eq in P1.
+    destruct (safe_sound g W p [] s Hi0 Hnil P2) as (s' & E & Hi' & V).
+    exists s', None. unfold step. simpl. rewrite Ep, E. repeat split; auto.
+    simpl. rewrite V, P1. reflexivity.
   - (* in-place change, then notification *)
-    destruct (update_sound g W s [PBump o; PFire o] Hi) as (s' & E & Hi' & V).
-    + intros l [->|[]]. split; auto. simpl. auto.
-    + intros x [->|[]]. destruct (leaf_ok_spec g x (WL x Hok)) as (m & Em & _).
-      unfold fire_ok. now rewrite Em.
-    + exists s', None. unfold step. simpl op_plan. cbv iota beta. rewrite E. repeat split; auto.
+    assert (Sf : safe g [] [PBump o; PFire o] = true).
+    { simpl. rewrite Hok, Nat.eqb_refl. simpl.
+      destruct (leaf_ok_spec g o (WL o Hok)) as (m & Em & _). unfold fire_ok. now rewrite Em. }
+    destruct (safe_sound g W _ [] s Hi0 Hnil Sf) as (s' & E & Hi' & V).
+    exists s', None. unfold step. simpl op_plan. cbv iota beta. rewrite E. repeat split; auto.
   - (* notification alone *)
-    destruct (update_sound g W s [PFire o] Hi) as (s' & E & Hi' & V).
-    + intros l [].
-    + intros x [->|[]]. apply (WP x Hok).
-    + exists s', None. unfold step. simpl op_plan. cbv iota beta. rewrite E. repeat split; auto.
+    assert (Sf : safe g [] [PFire o] = true).
+    { simpl. destruct (WP o Hok) as [Fo _]. now rewrite Fo. }
+    destruct (safe_sound g W _ [] s Hi0 Hnil Sf) as (s' & E & Hi' & V).
+    exists s', None. unfold step. simpl op_plan. cbv iota beta. rewrite E. repeat split; auto.
   - (* evaluation *)
     apply Nat.ltb_lt in Hok.
     pose proof (evalN_correct g T F s n Hok Hi) as Ev. unfold step.
@@ -388,14 +379,15 @@ Lemma update_state_independent_l : forall g p s1 s2,
   end.
 Proof.
   intros g. induction p as [|st p IH]; intros s1 s2; simpl; auto.
-  destruct st as [l|o|o f]; simpl; try apply IH.
-  destruct (fire g o); auto. apply IH.
+  destruct st as [l|o|o f|n]; simpl; try apply IH.
+  - destruct (fire g o); auto. apply IH.
+  - destruct (evalN g s1 n) as [[a1 b1] c1]. destruct (evalN g s2 n) as [[a2 b2] c2]. apply IH.
 Qed.
 
 (* necessity, on the smallest graph: a listener whose handler ignores the event serves a stale value *)
 Definition tiny (h : list hstmt) : graph :=
   mkGraph [mkCls [HRaise] [HRaise] [SBump; SFireSelf] []; mkCls h h [SRaise] [3]]
-          [mkObj 0 KLeaf [1] []; mkObj 1 KOther [] []]
+          [mkObj 0 KLeaf [1] [] 0; mkObj 1 KOther [] [] 1]
           [mkSlot 0 None true []; mkSlot 1 (Some 3) false [0]].
 
 Lemma tiny_wired_l : wired (tiny [HSet 3; HFire EvM]) = true.
